@@ -152,11 +152,13 @@ func genPad(c *vh.Ctx) {
 				return byte(j*7 + 1)
 			}, L)
 			runPad(c, pl, true)
-			if L > 1 {
-				q := append([]byte{}, pl...)
-				k := c.Intn(min(L, p+2))
-				q[L-1-k] ^= byte(1 + c.Intn(255))
-				runPad(c, q, true)
+			// deviations at the last padding position, just beyond it, and at a random place
+			for _, k := range []int{p, p + 1, c.Intn(min(L, p+2))} {
+				if k < L && L > 1 {
+					q := append([]byte{}, pl...)
+					q[L-1-k] ^= byte(1 + c.Intn(255))
+					runPad(c, q, true)
+				}
 			}
 		}
 		if L == 0 {
@@ -187,7 +189,7 @@ func genPad(c *vh.Ctx) {
 }
 
 // ------------------------------------------------------------- parameters
-var seqPool = []uint64{0, 1, 2, 255, 256, 65535, 1 << 32, 1<<32 - 1, 1 << 63, 1<<64 - 2, 0x0102030405060708}
+var seqPool = []uint64{0, 1, 2, 255, 256, 65535, 1<<24 - 1, 1 << 32, 1<<32 - 1, 1<<40 - 1, 1<<48 - 1, 1<<56 - 1, 1 << 63, 1<<64 - 2, 0x0102030405060708}
 
 func paramSpace(c *vh.Ctx) []params {
 	var out []params
@@ -643,6 +645,21 @@ func genDec(c *vh.Ctx) {
 			}
 		}
 	}
+	// TLS 1.3 inner plaintext with zero padding (zcrypto never pads, peers may)
+	for _, p0 := range []params{{Vers: 0x0304, Kind: "aead", Wrap: "xor", OVH: 16}, {Vers: 0x0304, Kind: "aead", E: 0, OVH: 16}} {
+		for _, z := range []int{0, 1, 2, 3, 16, 255} {
+			for _, n := range []int{0, 1, 5} {
+				p := fillParams(c, p0)
+				if p.Seq == 1<<64-1 {
+					p.Seq = 4
+				}
+				payload := c.Bytes(n)
+				typ := []byte{23, 22, 21}[c.Intn(3)]
+				rec := craft(p, typ, payload, craftOpt{zeros: z, padByte: -1})
+				runDec(c, input{S: "dec", P: p, Rec: vh.Hex(rec)}, payload, int(typ))
+			}
+		}
+	}
 	// TLS 1.3 record_overflow boundary: inner plaintext of 2^14+1 and 2^14+2 bytes
 	for _, extra := range []int{0, 1} {
 		p := fillParams(c, params{Vers: 0x0304, Kind: "aead", Wrap: "xor", OVH: 16})
@@ -775,7 +792,17 @@ func writerConn(p params, in input, log *spyLog, rnd io.Reader) (*tls.Conn, *cap
 }
 
 // checks on any spy writer run: the fragments are the written bytes, none larger than 2^14
-func oracleFragments(c *vh.Ctx, p params, in input, frs [][]byte, written []byte, wire []byte, stream string) {
+func oracleFragments(c *vh.Ctx, p params, in input, frs [][]byte, written []byte, wire []byte, stream string, calls []call) {
+	seen := map[string]bool{}
+	for _, cl := range calls {
+		if cl.K == "seal" {
+			if seen[string(cl.A)] {
+				c.Violation("nonce-reuse", fmt.Sprintf("%s: two records were sealed with the same nonce %x", p.name(), cl.A), stream, in)
+				return
+			}
+			seen[string(cl.A)] = true
+		}
+	}
 	var cat []byte
 	for i, f := range frs {
 		if len(f) > 16384 {
@@ -823,7 +850,7 @@ func runFrag(c *vh.Ctx, in input) {
 	c.Case("frag", vh.Pair(p.coqState(), vh.Z(in.Bytes0), vh.Z(in.Pkts0), vh.Bool(in.DynOff), vh.Bool(in.Beast), coqZs(in.Lens),
 		vh.Pair(coqZs(rl), vh.Z(bs), vh.Z(ps))), in, nk)
 	c.Stat("frag.records", len(recs))
-	oracleFragments(c, p, in, plaintexts(p, log.calls, cc.w), written, cc.w, "frag")
+	oracleFragments(c, p, in, plaintexts(p, log.calls, cc.w), written, cc.w, "frag", log.calls)
 }
 
 func fragParams() []params {
@@ -892,7 +919,7 @@ func runWire(c *vh.Ctx, in input) ([]byte, bool) {
 	}
 	c.Case("wire", vh.Pair(p.coqWrap(), p.coqState(), vh.Z(in.Bytes0), vh.Z(in.Pkts0), vh.Bool(in.DynOff), vh.Bool(in.Beast),
 		coqBytesList(ws), vh.Bytes(rnd), vh.Pair(vh.Bytes(cc.w), coqCalls(log.calls))), in, nk)
-	oracleFragments(c, p, in, plaintexts(p, log.calls, cc.w), written, cc.w, "wire")
+	oracleFragments(c, p, in, plaintexts(p, log.calls, cc.w), written, cc.w, "wire", log.calls)
 	return cc.w, true
 }
 
